@@ -750,6 +750,7 @@ class StubsStringGenerator:
             if name == "Set":
                 self._current_todo_msgs.add("no set support")
             elif name == "NamedSequence":
+                self._add_to_imports(type_data["qname"])
                 name = _replace_if_safeds_keyword(type_data["name"])
 
             if types:
